@@ -184,7 +184,7 @@ def gen_c16_item(r: random.Random, idx: int):
         return attrs
 
     # generics
-    gen_kind = r.choice(["", "", "", "", "T", "TU", "life", "const", "bounded", "where", "default", "constdef", "constonly", "life2", "default2", "constwhere"])
+    gen_kind = r.choice(["", "", "", "", "T", "TU", "life", "const", "bounded", "where", "default", "constdef", "constonly", "life2", "default2", "constwhere", "oddnames", "constv"])
     tparams = []
     if gen_kind == "T":
         it.generics, tparams = "<T>", ["T"]
@@ -207,6 +207,12 @@ def gen_c16_item(r: random.Random, idx: int):
     elif gen_kind == "constwhere":
         # no type parameters, but a where clause the type cannot be named without
         it.generics, tparams, it.where = "<const N: usize>", [], " where [u8; N]: Default"
+    elif gen_kind == "oddnames":
+        # parameter names that are also names the generated code uses for itself
+        it.generics, tparams = r.choice([("<inline, generics>", ["inline", "generics"]), ("<name, v>", ["name", "v"]),
+                                         ("<Self_, Output>", ["Self_", "Output"])])
+    elif gen_kind == "constv":
+        it.generics, tparams = r.choice(["<const v: usize>", "<const inline: usize>"]), []
     elif gen_kind == "life2":
         it.generics, tparams = "<'a, 'b: 'a, T: 'a>", ["T"]
     elif gen_kind == "default2":
@@ -235,6 +241,9 @@ def gen_c16_item(r: random.Random, idx: int):
             ts += ["&'b str", "&'a &'b str"]
         if gen_kind in ("const", "constdef", "constonly", "constwhere"):
             ts += ["[i32; N]", "[Option<String>; N]"]
+        if gen_kind == "constv":
+            cn = it.generics.split("const ")[1].split(":")[0]
+            ts += [f"[i32; {cn}]", f"[Option<String>; {cn}]"]
         return r.choice(ts)
 
     def mk_fields(shape):
